@@ -212,7 +212,17 @@ func VerifyComplaint(
 	midI MemberID,
 	commits Points,
 ) error {
-	err := VerifyComplaintSignature(oneTimePubI, oneTimePubJ, keySym, complaintSignature)
+	// The share is encrypted under a key derived from the compressed encoding of the symmetric key. Another encoding of the
+	// same point would pass the proof below but decrypt with a different key, making a correct share look invalid.
+	keySymPoint, err := keySym.jacobianPoint()
+	if err != nil {
+		return NewError(err, "parse key sym")
+	}
+	if !bytes.Equal(NewPointFromJacobianPoint(keySymPoint), keySym) {
+		return NewError(ErrInvalidPubkeyFormat, "key sym must be in compressed form")
+	}
+
+	err = VerifyComplaintSignature(oneTimePubI, oneTimePubJ, keySym, complaintSignature)
 	if err != nil {
 		return NewError(err, "verify complaint signature")
 	}
